@@ -60,6 +60,8 @@ func main() {
 			log.Fatal(err)
 		}
 		fmt.Fprintln(os.Stderr, "warning:", err)
+		// no parser has been written: this must not look like success
+		os.Exit(1)
 	}
 }
 
